@@ -495,6 +495,30 @@ pub fn run_c07(run: &mut Run, replay: Option<&Path>, corpus: &Path) -> anyhow::R
         if !ok {
             continue;
         }
+        // layout oracle on the implementation alone, whatever limit is configured (the limit may refuse a
+        // message, never change how an accepted one is laid out): the 8-byte preamble, then
+        // exactly two frames with 4-byte big-endian length prefixes, the second holding the raw body
+        {
+            let b = &bytes[..];
+            let skip = 8; // requests and responses alike start with the version frame
+            let be32 = |o: usize| -> Option<usize> { b.get(o..o + 4).map(|x| u32::from_be_bytes([x[0], x[1], x[2], x[3]]) as usize) };
+            let good = (|| {
+                if b.get(..8)? != &b"anemo\x00\x01\x00"[..] {
+                    return None;
+                }
+                let l1 = be32(skip)?;
+                let o2 = skip + 4 + l1;
+                let l2 = be32(o2)?;
+                if l2 != m.body.len() || b.len() != o2 + 4 + l2 || &b[o2 + 4..] != &m.body[..] {
+                    return None;
+                }
+                Some(())
+            })()
+            .is_some();
+            if !good {
+                run.oracle_fail(json!({"kind": "layout: an accepted message is not [preamble] + two 4-byte big-endian length-prefixed frames (header, raw body)", "ops": [enc_op.clone()], "impl": hexs(&bytes[..bytes.len().min(64)])}));
+            }
+        }
         // decode what was encoded, with optional trailing bytes
         let mut stream = bytes.clone();
         let extra = if rng.chance(1, 4) { rng.rbytes(20) } else { vec![] };
